@@ -1,6 +1,6 @@
 (* Proofs for C17 about the model of fix-qdf (File/FixQdf.v), against the strict reader's decoders
    (File/ReadStrict.v) and the writer arithmetic lemmas of File/C02Proofs.v. *)
-From QV Require Import Base.Bytes File.StrictSyntax File.ReadStrict File.WriterArith File.C02Proofs File.FixQdf File.QdfLayout File.C17Witness.
+From QV Require Import Base.Bytes File.StrictSyntax File.ReadStrict File.WriterArith File.C02Proofs File.FixQdf File.QdfLayout File.C17Witness File.C17Examples.
 From Coq Require Import Lia ZifyBool ZifyNat ZifyN.
 Local Open Scope Z_scope.
 
@@ -732,6 +732,311 @@ Proof.
 Qed.
 
 (* ====================================================================================================
+   Object streams.  From any state inside an object whose saved object-stream fields are clear (they are
+   cleared by every writeOstream and initially), for ANY old dictionary text, ANY old pair lines and ANY
+   member text:  the header is rebuilt with /Length = bytes between "stream" and "endstream", /N = number
+   of members, /First = size of the new pair lines + size of the first member's comment line, one pair per
+   member giving its number and the position of its text relative to the first member's text; the members
+   are copied through; every member gets a type-2 entry (this stream, its index); `offset` stays exact.
+   ==================================================================================================== *)
+Record fq_member := { m_hdr : list N; m_digits : list N; m_first : list N; m_rest : list (list N) }.
+Definition m_lines (m : fq_member) : list (list N) := m_hdr m :: m_first m :: m_rest m.
+
+Fixpoint fq_members_ok (num : Z) (ms : list fq_member) : Prop :=
+  match ms with
+  | [] => True
+  | m :: t => fq_match_ostream_obj (m_hdr m) = Some (m_digits m) /\ Z.of_N (dec_value (m_digits m)) = num /\
+              Forall (fun l => fq_match_ostream_obj l = None /\ fq_eqb l fqk_endstream_nl = false) (m_rest m) /\
+              fq_members_ok (num + 1) t
+  end.
+
+(* position of each member's text (after its comment line) relative to `rel`, the position of its comment line *)
+Fixpoint m_positions (rel : Z) (ms : list fq_member) : list Z :=
+  match ms with
+  | [] => []
+  | m :: t => (rel + fq_len (m_hdr m)) :: m_positions (rel + fq_len (concat (m_lines m))) t
+  end.
+
+Fixpoint fq_x2_entries (oid idx : Z) (n : nat) : list fq_xent :=      (* newest first *)
+  match n with
+  | O => []
+  | S k => FqX2 oid (idx + Z.of_nat k) :: fq_x2_entries oid idx k
+  end.
+
+Section OStreamSteps.
+Variables (sstart slen xoff : Z) (f1 f2 : N) (xsize : Z) (odisc : list (list N)) (oid : Z) (oext : list N) (out : list (list N)).
+
+Lemma mkfq_cong6 : forall st ln off off' lo lobj lobj' xref xref' ostream ostream' ooffs ooffs' oidx oidx',
+  off = off' -> lobj = lobj' -> xref = xref' -> ostream = ostream' -> ooffs = ooffs' -> oidx = oidx' ->
+  mkfq st ln off lo lobj xref sstart slen xoff f1 f2 xsize ostream ooffs odisc oidx oid oext out
+  = mkfq st ln off' lo lobj' xref' sstart slen xoff f1 f2 xsize ostream' ooffs' odisc oidx' oid oext out.
+Proof. intros; subst; reflexivity. Qed.
+
+Lemma fq_step_member_header_obj : forall hdr d lineno offset last_offset last_obj xref ostream ooffs oidx,
+  fq_match_ostream_obj hdr = Some d -> Z.of_N (dec_value d) = last_obj + 1 -> last_obj + 1 <= 2147483647 ->
+  fq_step (mkfq Fq_in_ostream_obj lineno offset last_offset last_obj xref sstart slen xoff f1 f2 xsize ostream ooffs odisc oidx oid oext out) hdr
+  = inl (mkfq Fq_in_ostream_outer (lineno + 1) (offset + fq_len hdr) offset (last_obj + 1) (FqX1 offset :: xref) sstart slen xoff f1 f2 xsize
+              (hdr :: ostream) ooffs odisc oidx oid oext out).
+Proof.
+  intros hdr d lineno offset last_offset last_obj xref ostream ooffs oidx Hh Hv Hmax.
+  unfold fq_step. fqsimp. rewrite Hh. unfold fq_check_obj_id. fqsimp. rewrite Hv.
+  destruct (2147483647 <? last_obj + 1) eqn:E1; [apply Z.ltb_lt in E1; lia|].
+  rewrite Z.eqb_refl. reflexivity.
+Qed.
+
+Lemma fq_step_member_first : forall line lineno offset last_offset last_obj e xref ostream ooffs oidx,
+  fq_step (mkfq Fq_in_ostream_outer lineno offset last_offset last_obj (e :: xref) sstart slen xoff f1 f2 xsize ostream ooffs odisc oidx oid oext out) line
+  = inl (mkfq Fq_in_ostream_obj (lineno + 1) (offset + fq_len line) offset last_obj (FqX2 oid oidx :: xref) sstart slen xoff f1 f2 xsize
+              (line :: ostream) ((offset - sstart) :: ooffs) odisc (oidx + 1) oid oext out).
+Proof. intros. unfold fq_step. fqsimp. unfold fq_adjust_ostream_xref. fqsimp. reflexivity. Qed.
+
+Lemma fq_member_rest_loop : forall rest lineno offset last_offset last_obj xref ostream ooffs oidx,
+  Forall (fun l => fq_match_ostream_obj l = None /\ fq_eqb l fqk_endstream_nl = false) rest ->
+  exists ln lo,
+    fq_run (mkfq Fq_in_ostream_obj lineno offset last_offset last_obj xref sstart slen xoff f1 f2 xsize ostream ooffs odisc oidx oid oext out) rest
+    = inl (mkfq Fq_in_ostream_obj ln (offset + fq_len (concat rest)) lo last_obj xref sstart slen xoff f1 f2 xsize
+                (rev rest ++ ostream) ooffs odisc oidx oid oext out).
+Proof.
+  induction rest as [|l t IH]; intros lineno offset last_offset last_obj xref ostream ooffs oidx Hall.
+  - exists lineno, last_offset. cbn [fq_run concat rev app]. unfold fq_len at 1. cbn [length]. rewrite Z.add_0_r. reflexivity.
+  - inversion Hall as [|? ? [Hl1 Hl2] Ht]; subst.
+    cbn [fq_run]. unfold fq_step. fqsimp. rewrite Hl1, Hl2. fqnorm.
+    destruct (IH (lineno + 1) (offset + fq_len l) offset last_obj xref (l :: ostream) ooffs oidx Ht) as [ln [lo Hrun]].
+    exists ln, lo. rewrite Hrun. cbn [concat rev]. rewrite fq_len_app, <- app_assoc, Z.add_assoc. reflexivity.
+Qed.
+
+(* all members after the first comment line has been seen: from the state after a member's text *)
+Lemma fq_members_loop : forall ms lineno offset last_offset last_obj xref ostream ooffs oidx,
+  fq_members_ok (last_obj + 1) ms -> last_obj + Z.of_nat (length ms) <= 2147483647 ->
+  exists ln lo,
+    fq_run (mkfq Fq_in_ostream_obj lineno offset last_offset last_obj xref sstart slen xoff f1 f2 xsize ostream ooffs odisc oidx oid oext out)
+           (concat (map m_lines ms))
+    = inl (mkfq Fq_in_ostream_obj ln (offset + fq_len (concat (concat (map m_lines ms)))) lo (last_obj + Z.of_nat (length ms))
+                (fq_x2_entries oid oidx (length ms) ++ xref) sstart slen xoff f1 f2 xsize
+                (rev (concat (map m_lines ms)) ++ ostream) (rev (m_positions (offset - sstart) ms) ++ ooffs) odisc
+                (oidx + Z.of_nat (length ms)) oid oext out).
+Proof.
+  induction ms as [|m t IH]; intros lineno offset last_offset last_obj xref ostream ooffs oidx Hok Hmax.
+  - exists lineno, last_offset. cbn [map concat fq_run rev app length fq_x2_entries m_positions]. unfold fq_len at 1. cbn [length].
+    rewrite !Z.add_0_r. reflexivity.
+  - destruct Hok as [Hh [Hv [Hrest Ht]]]. cbn [length] in Hmax.
+    cbn [map concat]. unfold m_lines at 1. cbn [app]. cbn [fq_run].
+    rewrite (fq_step_member_header_obj (m_hdr m) (m_digits m)) by (try assumption; lia).
+    cbn [fq_run]. rewrite fq_step_member_first.
+    rewrite fq_run_app.
+    destruct (fq_member_rest_loop (m_rest m) (lineno + 1 + 1) (offset + fq_len (m_hdr m) + fq_len (m_first m)) (offset + fq_len (m_hdr m)) (last_obj + 1)
+                (FqX2 oid oidx :: xref) (m_first m :: m_hdr m :: ostream) ((offset + fq_len (m_hdr m) - sstart) :: ooffs) (oidx + 1) Hrest)
+      as [ln1 [lo1 Hrun1]].
+    rewrite Hrun1.
+    destruct (IH ln1 (offset + fq_len (m_hdr m) + fq_len (m_first m) + fq_len (concat (m_rest m))) lo1 (last_obj + 1)
+                 (FqX2 oid oidx :: xref) (rev (m_rest m) ++ m_first m :: m_hdr m :: ostream) ((offset + fq_len (m_hdr m) - sstart) :: ooffs) (oidx + 1))
+      as [ln [lo Hrun]]; [exact Ht | lia |].
+    exists ln, lo. rewrite Hrun. apply f_equal.
+    assert (Hlen : fq_len (concat (m_lines m)) = fq_len (m_hdr m) + fq_len (m_first m) + fq_len (concat (m_rest m))).
+    { unfold m_lines. cbn [concat]. rewrite !fq_len_app. lia. }
+    apply mkfq_cong6.
+    + rewrite concat_app, fq_len_app. fold (m_lines m). rewrite Hlen. lia.
+    + cbn [length]. lia.
+    + cbn [length].
+      assert (G : forall n i, fq_x2_entries oid (i + 1) n ++ [FqX2 oid i] = fq_x2_entries oid i (S n)).
+      { induction n as [|n IHn]; intros i; [cbn; f_equal; f_equal; lia|].
+        cbn [fq_x2_entries app]. rewrite IHn. cbn [fq_x2_entries]. f_equal. f_equal. lia. }
+      change (FqX2 oid oidx :: xref) with ([FqX2 oid oidx] ++ xref). rewrite app_assoc, G. reflexivity.
+    + rewrite rev_app_distr. unfold m_lines. cbn [rev]. rewrite <- !app_assoc. cbn [app]. reflexivity.
+    + cbn [m_positions rev]. rewrite <- app_assoc. cbn [app]. rewrite Hlen.
+      replace (offset - sstart + (fq_len (m_hdr m) + fq_len (m_first m) + fq_len (concat (m_rest m))))
+        with (offset + fq_len (m_hdr m) + fq_len (m_first m) + fq_len (concat (m_rest m)) - sstart) by lia.
+      replace (offset - sstart + fq_len (m_hdr m)) with (offset + fq_len (m_hdr m) - sstart) by lia. reflexivity.
+    + cbn [length]. lia.
+Qed.
+End OStreamSteps.
+
+Lemma fq_sum_len_concat : forall ls, fq_sum_len ls = fq_len (concat ls).
+Proof.
+  intros ls. unfold fq_sum_len.
+  assert (G : forall l a, fold_left (fun a l => a + fq_len l) l a = a + fq_len (concat l)).
+  { induction l as [|x t IH]; intros a; cbn [fold_left concat]; [unfold fq_len; cbn; lia|]. rewrite IH, fq_len_app. lia. }
+  rewrite G. lia.
+Qed.
+
+Lemma fq_len_concat_rev : forall ls, fq_len (concat (rev ls)) = fq_len (concat ls).
+Proof.
+  induction ls as [|x t IH]; [reflexivity|]. cbn [rev concat]. rewrite concat_app, !fq_len_app, IH. cbn [concat]. rewrite app_nil_r. lia.
+Qed.
+
+Lemma fq_x2_entries_snoc : forall oid n i, fq_x2_entries oid (i + 1) n ++ [FqX2 oid i] = fq_x2_entries oid i (S n).
+Proof.
+  induction n as [|n IHn]; intros i; [cbn; f_equal; f_equal; lia|].
+  cbn [fq_x2_entries app]. rewrite IHn. cbn [fq_x2_entries]. f_equal. f_equal. lia.
+Qed.
+
+Lemma m_lines_concat : forall m, concat (m_lines m) = m_hdr m ++ m_first m ++ concat (m_rest m).
+Proof. reflexivity. Qed.
+
+Definition fq_ext_of (dict : list (list N)) (e0 : list N) : list N :=
+  fold_left (fun e l => match fq_match_extends l with Some m => m | None => e end) dict e0.
+
+Lemma fq_ostream_dict_loop : forall dict lineno offset last_offset last_obj xref sstart slen xoff f1 f2 xsize ostream ooffs odisc oidx oid oext out,
+  Forall (fun l => fq_eqb l fqk_stream_nl = false) dict ->
+  exists ln lo,
+    fq_run (mkfq Fq_in_ostream_dict lineno offset last_offset last_obj xref sstart slen xoff f1 f2 xsize ostream ooffs odisc oidx oid oext out) dict
+    = inl (mkfq Fq_in_ostream_dict ln (offset + fq_len (concat dict)) lo last_obj xref sstart slen xoff f1 f2 xsize ostream ooffs
+                (rev dict ++ odisc) oidx oid (fq_ext_of dict oext) out).
+Proof.
+  induction dict as [|l t IH]; intros lineno offset last_offset last_obj xref sstart slen xoff f1 f2 xsize ostream ooffs odisc oidx oid oext out Hall.
+  - exists lineno, last_offset. cbn [fq_run concat rev app fq_ext_of fold_left]. unfold fq_len at 1. cbn [length]. rewrite Z.add_0_r. reflexivity.
+  - inversion Hall as [|? ? Hl Ht]; subst.
+    cbn [fq_run]. unfold fq_step. fqsimp. rewrite Hl. fqnorm.
+    destruct (IH (lineno + 1) (offset + fq_len l) offset last_obj xref sstart slen xoff f1 f2 xsize ostream ooffs (l :: odisc) oidx oid
+                 (match fq_match_extends l with Some m => m | None => oext end) out Ht) as [ln [lo Hrun]].
+    exists ln, lo. rewrite Hrun. cbn [concat rev fq_ext_of fold_left]. rewrite fq_len_app, <- app_assoc, Z.add_assoc. reflexivity.
+Qed.
+
+Lemma fq_ostream_junk_loop : forall junk lineno offset last_offset last_obj xref sstart slen xoff f1 f2 xsize ostream ooffs odisc oidx oid oext out,
+  Forall (fun l => fq_match_ostream_obj l = None) junk ->
+  exists ln lo,
+    fq_run (mkfq Fq_in_ostream_offsets lineno offset last_offset last_obj xref sstart slen xoff f1 f2 xsize ostream ooffs odisc oidx oid oext out) junk
+    = inl (mkfq Fq_in_ostream_offsets ln (offset + fq_len (concat junk)) lo last_obj xref sstart slen xoff f1 f2 xsize ostream ooffs
+                (rev junk ++ odisc) oidx oid oext out).
+Proof.
+  induction junk as [|l t IH]; intros lineno offset last_offset last_obj xref sstart slen xoff f1 f2 xsize ostream ooffs odisc oidx oid oext out Hall.
+  - exists lineno, last_offset. cbn [fq_run concat rev app]. unfold fq_len at 1. cbn [length]. rewrite Z.add_0_r. reflexivity.
+  - inversion Hall as [|? ? Hl Ht]; subst.
+    cbn [fq_run]. unfold fq_step. fqsimp. rewrite Hl. fqnorm.
+    destruct (IH (lineno + 1) (offset + fq_len l) offset last_obj xref sstart slen xoff f1 f2 xsize ostream ooffs (l :: odisc) oidx oid oext out Ht) as [ln [lo Hrun]].
+    exists ln, lo. rewrite Hrun. cbn [concat rev]. rewrite fq_len_app, <- app_assoc, Z.add_assoc. reflexivity.
+Qed.
+
+Lemma fq_step_objstm_type_line : forall tyline lineno offset last_offset last_obj xref sstart slen xoff f1 f2 xsize ostream ooffs odisc oidx oid oext out,
+  fq_eqb tyline fqk_stream_nl = false -> fq_eqb tyline fqk_endobj_nl = false -> fq_contains fqk_type_objstm tyline = true ->
+  fq_step (mkfq Fq_in_obj lineno offset last_offset last_obj xref sstart slen xoff f1 f2 xsize ostream ooffs odisc oidx oid oext out) tyline
+  = inl (mkfq Fq_in_ostream_dict (lineno + 1) (offset + fq_len tyline) offset last_obj xref sstart slen xoff f1 f2 xsize ostream ooffs odisc oidx
+              last_obj oext (tyline :: out)).
+Proof. intros. unfold fq_step. fqsimp. rewrite H, H0, H1. reflexivity. Qed.
+
+Lemma fq_step_ostream_stream_kw : forall lineno offset last_offset last_obj xref sstart slen xoff f1 f2 xsize ostream ooffs odisc oidx oid oext out,
+  fq_step (mkfq Fq_in_ostream_dict lineno offset last_offset last_obj xref sstart slen xoff f1 f2 xsize ostream ooffs odisc oidx oid oext out) fqk_stream_nl
+  = inl (mkfq Fq_in_ostream_offsets (lineno + 1) (offset + fq_len fqk_stream_nl) offset last_obj xref sstart slen xoff f1 f2 xsize ostream ooffs odisc oidx oid oext out).
+Proof. intros. unfold fq_step. fqsimp. change (fq_eqb fqk_stream_nl fqk_stream_nl) with true. cbv iota. reflexivity. Qed.
+
+Lemma fq_step_first_member_header : forall hdr d lineno offset last_offset last_obj xref sstart slen xoff f1 f2 xsize ostream ooffs odisc oidx oid oext out,
+  fq_match_ostream_obj hdr = Some d -> Z.of_N (dec_value d) = last_obj + 1 -> last_obj + 1 <= 2147483647 ->
+  fq_step (mkfq Fq_in_ostream_offsets lineno offset last_offset last_obj xref sstart slen xoff f1 f2 xsize ostream ooffs odisc oidx oid oext out) hdr
+  = inl (mkfq Fq_in_ostream_outer (lineno + 1) (offset + fq_len hdr) offset (last_obj + 1) (FqX1 offset :: xref) offset slen xoff f1 f2 xsize
+              (hdr :: ostream) ooffs odisc oidx oid oext out).
+Proof.
+  intros hdr d lineno offset last_offset last_obj xref sstart slen xoff f1 f2 xsize ostream ooffs odisc oidx oid oext out Hh Hv Hmax.
+  unfold fq_step. fqsimp. rewrite Hh. unfold fq_check_obj_id. fqsimp. rewrite Hv.
+  destruct (2147483647 <? last_obj + 1) eqn:E1; [apply Z.ltb_lt in E1; lia|].
+  rewrite Z.eqb_refl. reflexivity.
+Qed.
+
+Lemma fq_step_ostream_endstream : forall lineno offset last_offset last_obj xref sstart slen xoff f1 f2 xsize ostream ooffs odisc oidx oid oext out,
+  fq_step (mkfq Fq_in_ostream_obj lineno offset last_offset last_obj xref sstart slen xoff f1 f2 xsize ostream ooffs odisc oidx oid oext out) fqk_endstream_nl
+  = match fq_write_ostream (mkfq Fq_in_ostream_obj (lineno + 1) (offset + fq_len fqk_endstream_nl) offset last_obj xref sstart (offset - sstart) xoff f1 f2 xsize
+                                 (fqk_endstream_nl :: ostream) ooffs odisc oidx oid oext out) with
+    | inl s2 => inl (fq_set_st s2 Fq_in_obj)
+    | inr e => inr e
+    end.
+Proof.
+  intros. unfold fq_step. fqsimp.
+  change (fq_match_ostream_obj fqk_endstream_nl) with (@None (list N)). cbv iota.
+  change (fq_eqb fqk_endstream_nl fqk_endstream_nl) with true. cbv iota. reflexivity.
+Qed.
+
+(* THE OBJECT-STREAM THEOREM: /Type /ObjStm line, old dictionary text, "stream", old pair lines, members (comment
+   line, first line, further lines), "endstream" |-> rebuilt dictionary (/Length = pairs + members, /N, /First = pairs +
+   first comment, /Extends kept), "stream", one pair per member (number, position relative to the first member's text),
+   the members verbatim, "endstream"; offsets stay exact; members get type-2 entries (this stream, 0..n-1) *)
+Lemma fixqdf_object_stream_lemma : forall s tyline dict junk m ms,
+  q_st s = Fq_in_obj -> q_ostream s = [] -> q_ooffs s = [] -> q_odisc s = [] -> q_oidx s = 0 -> q_oext s = [] ->
+  fq_eqb tyline fqk_stream_nl = false -> fq_eqb tyline fqk_endobj_nl = false -> fq_contains fqk_type_objstm tyline = true ->
+  Forall (fun l => fq_eqb l fqk_stream_nl = false) dict ->
+  Forall (fun l => fq_match_ostream_obj l = None) junk ->
+  fq_members_ok (q_last_obj s + 1) (m :: ms) ->
+  q_last_obj s + Z.of_nat (length (m :: ms)) <= 2147483647 ->
+  let members := concat (map m_lines (m :: ms)) in
+  let body := concat members in
+  let pos := m_positions 0 (m :: ms) in
+  let pairs := concat (fq_offsets_lines pos (fq_len (m_hdr m)) (q_last_obj s)) in
+  let ext := fq_ext_of dict [] in
+  let new_dict :=
+      fqk_length_sp ++ fq_dec (fq_len body + fq_len pairs) ++ fqk_nl ++
+      fqk_N_sp ++ fq_dec (Z.of_nat (length (m :: ms))) ++ fqk_nl ++
+      fqk_first_sp ++ fq_dec (fq_len (m_hdr m) + fq_len pairs) ++ fqk_nl ++
+      (match ext with [] => [] | e => fqk_extends_key ++ e ++ fqk_nl end) ++ fqk_dict_end in
+  exists s',
+    fq_run s ([tyline] ++ dict ++ [fqk_stream_nl] ++ junk ++ members ++ [fqk_endstream_nl]) = inl s' /\
+    q_st s' = Fq_in_obj /\
+    fq_flatten (q_out s') = fq_flatten (q_out s) ++ tyline ++ new_dict ++ fqk_stream_nl ++ pairs ++ body ++ fqk_endstream_nl /\
+    q_offset s' - q_offset s = fq_len (fq_flatten (q_out s')) - fq_len (fq_flatten (q_out s)) /\
+    q_xref s' = fq_x2_entries (q_last_obj s) 0 (length (m :: ms)) ++ q_xref s /\
+    q_last_obj s' = q_last_obj s + Z.of_nat (length (m :: ms)) /\
+    q_ostream s' = [] /\ q_ooffs s' = [] /\ q_odisc s' = [] /\ q_oidx s' = 0 /\ q_oext s' = [].
+Proof.
+  intros s tyline dict junk m ms Hst Ho1 Ho2 Ho3 Ho4 Ho5 Ht1 Ht2 Ht3 Hdict Hjunk Hok Hmax members body pos pairs ext new_dict.
+  destruct s as [st lineno offset last_offset last_obj xref sstart slen xoff f1 f2 xsize ostream ooffs odisc oidx oid oext out].
+  cbn [q_st q_last_obj q_out q_offset q_xref q_ostream q_ooffs q_odisc q_oidx q_oext] in *. subst st ostream ooffs odisc oidx oext.
+  cbn [app]. cbn [fq_run]. rewrite fq_step_objstm_type_line by assumption.
+  rewrite fq_run_app.
+  match goal with |- context [fq_run (mkfq Fq_in_ostream_dict ?a ?b ?c ?d ?e ?f ?g ?h ?i ?j ?k ?l ?m0 ?n ?o ?p ?q ?r) dict] =>
+    destruct (fq_ostream_dict_loop dict a b c d e f g h i j k l m0 n o p q r Hdict) as [ln1 [lo1 Hrun1]] end.
+  rewrite Hrun1. cbn [app]. cbn [fq_run]. rewrite fq_step_ostream_stream_kw.
+  rewrite fq_run_app.
+  match goal with |- context [fq_run (mkfq Fq_in_ostream_offsets ?a ?b ?c ?d ?e ?f ?g ?h ?i ?j ?k ?l ?m0 ?n ?o ?p ?q ?r) junk] =>
+    destruct (fq_ostream_junk_loop junk a b c d e f g h i j k l m0 n o p q r Hjunk) as [ln2 [lo2 Hrun2]] end.
+  rewrite Hrun2.
+  rewrite fq_run_app.
+  destruct Hok as [Hh [Hv [Hrest Hoks]]]. cbn [length] in Hmax.
+  unfold members at 1. cbn [map concat]. unfold m_lines at 1. cbn [app]. cbn [fq_run].
+  rewrite (fq_step_first_member_header (m_hdr m) (m_digits m)) by (try assumption; lia).
+  cbn [fq_run]. rewrite fq_step_member_first.
+  rewrite fq_run_app.
+  match goal with |- context [fq_run (mkfq Fq_in_ostream_obj ?a ?b ?c ?d ?e ?f ?g ?h ?i ?j ?k ?l ?m0 ?n ?o ?p ?q ?r) (m_rest m)] =>
+    destruct (fq_member_rest_loop f g h i j k n p q r (m_rest m) a b c d e l m0 o Hrest) as [ln3 [lo3 Hrun3]] end.
+  rewrite Hrun3.
+  assert (Hmax2 : last_obj + 1 + Z.of_nat (length ms) <= 2147483647) by lia.
+  match goal with |- context [fq_run (mkfq Fq_in_ostream_obj ?a ?b ?c ?d ?e ?f ?g ?h ?i ?j ?k ?l ?m0 ?n ?o ?p ?q ?r) (concat (map m_lines ms))] =>
+    destruct (fq_members_loop f g h i j k n p q r ms a b c d e l m0 o Hoks Hmax2) as [ln4 [lo4 Hrun4]] end.
+  rewrite Hrun4.
+  cbn [fq_run]. rewrite fq_step_ostream_endstream.
+  set (O1 := offset + fq_len tyline + fq_len (concat dict) + fq_len fqk_stream_nl + fq_len (concat junk)) in *.
+  unfold fq_write_ostream. fqsimp. rewrite rev'_rev.
+  rewrite !rev_app_distr, rev_involutive. cbn [rev app].
+  replace (O1 + fq_len (m_hdr m) - O1) with (fq_len (m_hdr m)) by lia.
+  assert (Hpos : fq_len (m_hdr m) :: m_positions (O1 + fq_len (m_hdr m) + fq_len (m_first m) + fq_len (concat (m_rest m)) - O1) ms = pos).
+  { unfold pos. cbn [m_positions]. f_equal. f_equal. unfold m_lines. cbn [concat]. rewrite !fq_len_app. lia. }
+  rewrite Hpos. unfold pos at 1. cbn [m_positions]. rewrite Z.add_0_l. fold pos.
+  eexists. split; [reflexivity|]. fqsimp.
+  assert (Hbody : fq_len body = fq_len (m_hdr m) + fq_len (m_first m) + fq_len (concat (m_rest m)) + fq_len (concat (concat (map m_lines ms)))).
+  { unfold body, members. cbn [map concat]. unfold m_lines at 1. cbn [concat]. rewrite concat_app. rewrite !fq_len_app. cbn [concat]. rewrite !fq_len_app. lia. }
+  assert (Hnpos : Z.of_nat (length pos) = Z.of_nat (length (m :: ms))).
+  { f_equal. unfold pos. generalize 0. generalize (m :: ms). induction l as [|x l IHl]; intros z; [reflexivity|]. cbn [m_positions length]. rewrite IHl. reflexivity. }
+  fold pairs.
+  replace (O1 + fq_len (m_hdr m) + fq_len (m_first m) + fq_len (concat (m_rest m)) + fq_len (concat (concat (map m_lines ms))) - O1 + fq_len pairs)
+    with (fq_len body + fq_len pairs) by lia.
+  rewrite Hnpos. fold ext. fold new_dict.
+  split; [reflexivity|].
+  match goal with |- ?A /\ _ => assert (Hout : A) end.
+  { repeat (rewrite fq_flatten_cons || rewrite fq_flatten_app || rewrite fq_flatten_rev_lines).
+    assert (Hb : (((fq_flatten [] ++ m_hdr m) ++ m_first m) ++ concat (m_rest m)) ++ concat (concat (map m_lines ms)) = body).
+    { change (fq_flatten []) with (@nil N). cbn [app]. unfold body, members. cbn [map concat]. rewrite concat_app, m_lines_concat.
+      rewrite <- !app_assoc. reflexivity. }
+    rewrite Hb. unfold new_dict. rewrite <- !app_assoc. destruct ext; reflexivity. }
+  split; [exact Hout|].
+  split.
+  { rewrite Hout. rewrite fq_sum_len_concat. rewrite !concat_app, !fq_len_app, !fq_len_concat_rev. cbn [concat].
+    change (fq_len []) with 0. unfold O1, new_dict. rewrite Hbody.
+    destruct ext; rewrite ?app_comm_cons, !fq_len_app; ring. }
+  split.
+  { cbn [length]. change (FqX2 last_obj 0 :: xref) with ([FqX2 last_obj 0] ++ xref). rewrite app_assoc.
+    pose proof (fq_x2_entries_snoc last_obj (length ms) 0) as G. change (0 + 1) with 1 in G. rewrite G. reflexivity. }
+  split; [cbn [length]; lia|].
+  repeat split; reflexivity.
+Qed.
+
+
+(* ====================================================================================================
    Findings, machine-checked on real `qpdf --qdf` output (File/C17Witness.v; the harness re-creates these files
    with the qpdf under test on every run and compares the bytes).
 
@@ -861,4 +1166,29 @@ Proof.
   split; [apply fq_plainb_spec; vm_compute; reflexivity|].
   split; [apply fq_reaches_done_spec; vm_compute; reflexivity|].
   split; [vm_compute; reflexivity|]. split; [vm_compute; reflexivity|]. apply rs_ok_true; vm_compute; reflexivity.
+Qed.
+
+(* non-vacuity of fixqdf_object_stream and fixqdf_stream_length: concrete lines (File/C17Examples.v) meeting every premise *)
+Definition c17_ex_state : fqs :=
+  match fq_run fq_init [c17_l_obj1; c17_l_open] with inl s => s | inr _ => fq_init end.
+Definition c17_ex_member : fq_member :=
+  {| m_hdr := c17_l_member; m_digits := c17_d_2; m_first := c17_l_open; m_rest := [c17_l_key; c17_l_close] |}.
+
+Lemma fixqdf_object_stream_example_lemma :
+  q_st c17_ex_state = Fq_in_obj /\ q_ostream c17_ex_state = [] /\ q_ooffs c17_ex_state = [] /\ q_odisc c17_ex_state = [] /\
+  q_oidx c17_ex_state = 0 /\ q_oext c17_ex_state = [] /\
+  fq_eqb c17_l_type fqk_stream_nl = false /\ fq_eqb c17_l_type fqk_endobj_nl = false /\
+  fq_contains fqk_type_objstm c17_l_type = true /\
+  Forall (fun l => fq_eqb l fqk_stream_nl = false) [c17_l_olddict; c17_l_close] /\
+  Forall (fun l => fq_match_ostream_obj l = None) [c17_l_pair] /\
+  fq_members_ok (q_last_obj c17_ex_state + 1) [c17_ex_member] /\
+  q_last_obj c17_ex_state + Z.of_nat (length [c17_ex_member]) <= 2147483647 /\
+  (* and for fixqdf_stream_length *)
+  Forall (fun l => fq_eqb l fqk_endstream_nl = false) [c17_l_bt; c17_l_almost] /\
+  Forall (fun l => fq_match_n_0_obj l = None) [fqk_endobj_nl; [10%N]; fqk_ignore_newline] /\
+  fq_match_n_0_obj c17_l_obj2 = Some c17_d_2 /\ Z.of_N (dec_value c17_d_2) = q_last_obj c17_ex_state + 1 /\
+  fq_match_num c17_l_44 = true.
+Proof.
+  repeat (split; [first [reflexivity | (repeat constructor; reflexivity) | (vm_compute; intros H; discriminate H)]|]).
+  reflexivity.
 Qed.
